@@ -11,7 +11,7 @@ What is proved at full strength
 * `c05_classify_render_{savina, jmh, time_formatted, time_rss}` — the documented lines of SavinaLog, JMH
   and Time -f are classified as printed (first path of the backtracking matcher), also when followed
   by a carriage return;
-* `c05_savina_roundtrip`, `c05_jmh_roundtrip` — the three together for whole outputs.
+* `c05_savina_roundtrip`, `c05_jmh_roundtrip`, `c05_time_formatted_roundtrip` — the three together for whole outputs.
 What stays a hypothesis (`…_partial`): `classify_render` for ReBenchLog, ValidationLog (the alternatives
 of `(?:.*: )?` with a longer prefix must fail), PlainSecondsLog (`float()`) and `time -p`; there the
 classification facts are hypotheses of the generic round-trip theorem (`GoodGroup`), listed in the
@@ -316,6 +316,53 @@ theorem c05_jmh_roundtrip (inv : Nat) (ls : List Line) (xs : List (JMHLine × Li
       exact ⟨h3, h4, c05_classify_render_jmh x.1 h1 x.2 h2⟩)
     (by simpa [List.map_map, Function.comp_def] using hls)
   simpa [List.map_map, Function.comp_def] using h
+
+
+/-- a group of Time `-f` output: `max rss (kb): D` lines, then `wall-time (secounds): D.D`, each
+possibly followed by text that does not start with a digit (a carriage return), none with a marker -/
+structure TFGroup (g : Group) : Prop where
+  rss : ∀ l ∈ g.1, ∃ n tail, Digits n ∧ stopsAt isDigit tail ∧ l = "max rss (kb): ".toList ++ (n ++ tail) ∧
+    (cfgTimeFormatted false).marker l = false
+  time : ∃ ip fp tail, Digits ip ∧ Digits fp ∧ stopsAt isDigit tail ∧
+    g.2 = "wall-time (secounds): ".toList ++ (ip ++ (".".toList ++ (fp ++ tail))) ∧
+    (cfgTimeFormatted false).marker g.2 = false
+
+/-- what the two kinds of line contribute: `MaxRSS` in kb as printed, the total in ms = seconds · 1000 -/
+theorem c05_time_formatted_lineMeas (inv it : Nat) (n ip fp tail : List Char) (hn : Digits n) (hi : Digits ip)
+    (hf : Digits fp) (ht : stopsAt isDigit tail) :
+    lineMeas (cfgTimeFormatted false) inv it ("max rss (kb): ".toList ++ (n ++ tail)) =
+      [{ invocation := inv, iteration := it, criterion := "MaxRSS".toList, unit := "kb".toList,
+         value := .flt (decVal n []) }] ∧
+    lineMeas (cfgTimeFormatted false) inv it ("wall-time (secounds): ".toList ++ (ip ++ (".".toList ++ (fp ++ tail)))) =
+      [{ invocation := inv, iteration := it, criterion := totalName, unit := ms,
+         value := .flt (decVal ip fp * 1000) }] := by
+  constructor
+  · simp only [lineMeas, cfgTimeFormatted, c05_classify_render_time_rss n hn tail ht]; rfl
+  · simp only [lineMeas, cfgTimeFormatted, c05_classify_render_time_formatted ip fp hi hf tail ht]; rfl
+
+/-- `parse_render_roundtrip` for Time with `-f`: iterations (any number of `max rss` lines, then the
+wall time), interleaved with noise: exactly those data points, numbered 1..k -/
+theorem c05_time_formatted_roundtrip (inv : Nat) (ls : List Line) (gs : List Group) (hne : gs ≠ [])
+    (hg : ∀ g ∈ gs, TFGroup g)
+    (hls : ls.filter (fun l => !(cfgTimeFormatted false).noise l) = gs.flatMap Group.lines) :
+    collect (cfgTimeFormatted false) inv ls = .ok (groupsExpected (cfgTimeFormatted false) inv 1 gs) := by
+  apply c05_collect_roundtrip _ preNonTotal_timeFormatted inv ls gs hne _ hls
+  intro g hgm
+  obtain ⟨hr, ip, fp, tail, hi, hf, ht, h2, hm2⟩ := hg g hgm
+  refine ⟨?_, ?_, ?_⟩
+  · intro l hl
+    simp only [Group.lines, List.mem_append, List.mem_cons, List.not_mem_nil, or_false] at hl
+    rcases hl with hl | hl
+    · obtain ⟨n, t, _, _, _, hm⟩ := hr l hl
+      exact ⟨rfl, hm⟩
+    · subst hl; exact ⟨rfl, hm2⟩
+  · intro l hl
+    obtain ⟨n, t, hn, ht', he, _⟩ := hr l hl
+    subst he
+    exact ⟨_, c05_classify_render_time_rss n hn t ht', rfl⟩
+  · rw [h2]
+    exact ⟨_, c05_classify_render_time_formatted ip fp hi hf tail ht, rfl⟩
+
 
 /-- non-vacuity: a CR-LF JMH output of two iterations -/
 example : collectFresh (cfgJMH false) 1 (splitLines "# Warmup Iteration   1: 5.5 ops/s\r\nIteration   1: 6 ops/s\r\n".toList)
